@@ -313,9 +313,12 @@ func handleKey(root string, n int, tokens []string) string {
 				canon = strings.ReplaceAll(canon, ":"+mq.Fingerprint, ":@"+vhex(q.ID))
 			}
 		}
-		for path, c := range r.overlay {
-			_ = path
+		// overlay hashes and (in trees that have them) content hashes: name the content when the entry is its sha256
+		for _, c := range r.overlay {
 			canon = strings.ReplaceAll(canon, "/"+sha(string(c)), "/#"+vhex(string(c)))
+		}
+		for _, f := range r.files {
+			canon = strings.ReplaceAll(canon, "/"+sha(f.content), "/#"+vhex(f.content))
 		}
 		fpok := "1"
 		if m.Fingerprint != sha(m.Text) {
